@@ -652,7 +652,7 @@ terrorIdCondition(TForm tf, AbSyn id, AbLogic cont, AbLogic cond)
 	String	fmtOp = fmtAbSyn(id);
 
 	bufPrintf(obuf, "There are no suitable meanings for `");
-	bufPrintf(obuf, fmtOp);
+	bufPrintf(obuf, "%s", fmtOp);
 	bufPrintf(obuf, "': it has the condition `");
 	bputAblog(obuf, cond);
 	bufPrintf(obuf, "' which is not satisfied by the context `");
@@ -675,7 +675,7 @@ terrorApplyCondition(AbSyn ab, TForm tf, AbSyn op, AbLogic cont, AbLogic cond)
 	String	fmtOp = fmtAbSyn(op);
 
 	bufPrintf(obuf, "There are no suitable meanings for `");
-	bufPrintf(obuf, fmtOp);
+	bufPrintf(obuf, "%s", fmtOp);
 	bufPrintf(obuf, "': it has the condition `");
 	bputAblog(obuf, cond);
 	bufPrintf(obuf, "' which is not satisfied by the context `");
